@@ -181,14 +181,191 @@ macro_rules! mmcs_universe {
 mmcs_universe!(kb4, koala_bear_params, p3_poseidon2_circuit_air::KoalaBearD4Width16, p3_circuit::ops::Poseidon2Config::KOALA_BEAR_D4_W16, p3_koala_bear::default_koalabear_poseidon2_16);
 mmcs_universe!(bb4, baby_bear_params, p3_poseidon2_circuit_air::BabyBearD4Width16, p3_circuit::ops::Poseidon2Config::BABY_BEAR_D4_W16, p3_baby_bear::default_babybear_poseidon2_16);
 
+/// Arity-4 MMCS (width-32 Poseidon2, 4-to-1 compression) over KoalaBear: native quaternary
+/// `MerkleTreeMmcs<_, _, _, _, 4, 8>` versus `verify_batch_circuit_arity4`. Mixed heights put
+/// step-2 "bridge" levels between quaternary layers; caps select among several roots.
+pub mod kb4a4 {
+    use p3_circuit::ops::{Poseidon2Config, generate_poseidon2_trace, generate_recompose_trace, perm_private_data};
+    use p3_circuit::{CircuitBuilder, NonPrimitiveOpId};
+    use p3_commit::{BatchOpeningRef, Mmcs};
+    use p3_field::extension::BinomialExtensionField;
+    use p3_field::{BasedVectorSpace, PrimeCharacteristicRing};
+    use p3_koala_bear::{KoalaBear, Poseidon2KoalaBear, default_koalabear_poseidon2_32};
+    use p3_matrix::Matrix;
+    use p3_matrix::dense::RowMajorMatrix;
+    use p3_merkle_tree::MerkleTreeMmcs;
+    use p3_poseidon2_circuit_air::KoalaBearD4Width32;
+    use p3_recursion::pcs::verify_batch_circuit_arity4;
+    use p3_symmetric::{PaddingFreeSponge, TruncatedPermutation};
+    use p3_util::log2_ceil_usize;
+
+    use super::{CaseOut, MFault, MmcsShape};
+    use crate::core::pool::observe;
+
+    type F = KoalaBear;
+    type CF = BinomialExtensionField<F, 4>;
+    type Perm32 = Poseidon2KoalaBear<32>;
+    type LeafHash = PaddingFreeSponge<Perm32, 32, 24, 8>;
+    type Compress4 = TruncatedPermutation<Perm32, 4, 8, 32>;
+    type Mmcs4 = MerkleTreeMmcs<F, F, LeafHash, Compress4, 4, 8>;
+    const DIGEST_ELEMS: usize = 8;
+
+    fn mats(shape: &MmcsShape) -> Vec<RowMajorMatrix<F>> {
+        let mut rng = crate::core::prng::Rng::new(shape.seed, "mmcs-mats", 0);
+        shape
+            .dims
+            .iter()
+            .map(|(h, w)| {
+                let vals: Vec<F> = (0..h * w).map(|_| F::from_u64(rng.below(<F as p3_field::PrimeField64>::ORDER_U64))).collect();
+                RowMajorMatrix::new(vals, *w)
+            })
+            .collect()
+    }
+
+    fn mmcs(cap_height: usize) -> (Perm32, Mmcs4) {
+        let perm = default_koalabear_poseidon2_32();
+        let m = Mmcs4::new(LeafHash::new(perm.clone()), Compress4::new(perm.clone()), cap_height);
+        (perm, m)
+    }
+
+    fn pack_digest(digest: &[F]) -> Vec<CF> {
+        digest
+            .chunks(4)
+            .map(|ch| {
+                let mut c = vec![F::ZERO; 4];
+                c[..ch.len()].copy_from_slice(ch);
+                CF::from_basis_coefficients_slice(&c).unwrap()
+            })
+            .collect()
+    }
+
+    pub fn fault_space(shape: &MmcsShape, index: usize) -> (usize, usize, usize, usize) {
+        let (_, m) = mmcs(shape.cap_height);
+        let ms = mats(shape);
+        let max_h = ms.iter().map(|m| m.height()).max().unwrap();
+        let (commit, pd) = m.commit(ms);
+        let o = m.open_batch(index % max_h, &pd);
+        (o.opened_values.iter().map(|v| v.len()).sum(), o.opening_proof.len() * DIGEST_ELEMS, log2_ceil_usize(max_h), commit.num_roots() * DIGEST_ELEMS)
+    }
+
+    pub fn run_case(shape: &MmcsShape, f: &MFault) -> Result<CaseOut, String> {
+        let (perm, m) = mmcs(shape.cap_height);
+        let ms = mats(shape);
+        let dimensions: Vec<_> = ms.iter().map(|m| m.dimensions()).collect();
+        let max_h = shape.dims.iter().map(|d| d.0).max().unwrap();
+        let log_max = log2_ceil_usize(max_h);
+        let (commit, pd) = m.commit(ms);
+        let index = f.index % max_h;
+        let opening = m.open_batch(index, &pd);
+        let mut values: Vec<Vec<F>> = opening.opened_values.clone();
+        let mut proof: Vec<[F; DIGEST_ELEMS]> = opening.opening_proof.clone();
+        let mut roots: Vec<[F; DIGEST_ELEMS]> = commit.roots().to_vec();
+        let mut idx2 = index;
+        match f.kind.as_str() {
+            "none" => {}
+            "value" => {
+                let mut k = f.pos;
+                for v in values.iter_mut() {
+                    if k < v.len() {
+                        v[k] += F::ONE;
+                        break;
+                    }
+                    k -= v.len();
+                }
+            }
+            "sibling" => {
+                if proof.is_empty() {
+                    return Err("no siblings".into());
+                }
+                let (d, w) = (f.pos / DIGEST_ELEMS % proof.len(), f.pos % DIGEST_ELEMS);
+                proof[d][w] += F::ONE;
+            }
+            "index_bit" => {
+                if log_max == 0 {
+                    return Err("no index bits".into());
+                }
+                idx2 = index ^ (1 << (f.pos % log_max));
+            }
+            "cap" => {
+                let (r, w) = (f.pos / DIGEST_ELEMS % roots.len(), f.pos % DIGEST_ELEMS);
+                roots[r][w] += F::ONE;
+            }
+            _ => return Err("unknown fault".into()),
+        }
+        let commit2: <Mmcs4 as Mmcs<F>>::Commitment = roots.clone().into();
+        let native = observe(|| m.verify_batch(&commit2, &dimensions, idx2, BatchOpeningRef::new(&values, &proof)).is_ok()).unwrap_or(false);
+        let cfg = Poseidon2Config::KOALA_BEAR_D4_W32;
+        let built = observe(|| {
+            let mut b = CircuitBuilder::<CF>::new();
+            b.enable_poseidon2_perm_width_32::<KoalaBearD4Width32, _>(generate_poseidon2_trace::<CF, KoalaBearD4Width32>, perm.clone());
+            b.enable_recompose::<F>(generate_recompose_trace::<F, CF>);
+            let openings: Vec<Vec<_>> = values.iter().map(|o| (0..o.len()).map(|_| b.public_input()).collect()).collect();
+            let dirs = b.alloc_public_inputs(log_max, "directions");
+            let caps: Vec<Vec<_>> = (0..roots.len()).map(|_| b.alloc_public_inputs(DIGEST_ELEMS / 4, "cap").to_vec()).collect();
+            let ops = verify_batch_circuit_arity4::<F, CF>(&mut b, cfg, &caps, &dimensions, &dirs, &openings).map_err(|e| format!("{e:?}"))?;
+            let c = b.build().map_err(|e| format!("{e:?}"))?;
+            Ok::<_, String>((c, ops))
+        });
+        let (circuit, ops): (_, Vec<NonPrimitiveOpId>) = match built {
+            Ok(Ok(x)) => x,
+            Ok(Err(e)) => return Ok(CaseOut { native, circuit: Err(format!("build: {e}")), circuit_panicked: false }),
+            Err(p) => return Ok(CaseOut { native, circuit: Err(format!("build panic: {p}")), circuit_panicked: true }),
+        };
+        let ran = observe(|| {
+            let mut pubs: Vec<CF> = values.iter().flat_map(|v| v.iter().map(|x| CF::from(*x))).collect();
+            pubs.extend((0..log_max).map(|k| CF::from_bool((idx2 >> k) & 1 == 1)));
+            for r in &roots {
+                pubs.extend(pack_digest(r));
+            }
+            let mut r = circuit.runner();
+            r.set_public_inputs(&pubs).map_err(|e| format!("{e:?}"))?;
+            // consecutive equal op ids share one permutation row: 3 siblings on a step-4 level,
+            // 1 on a step-2 bridge, zero-padded to 3 digests
+            let capacity_ext = cfg.capacity_ext();
+            if ops.len() != proof.len() {
+                return Err(format!("{} sibling slots for {} proof digests ({} cap entries)", ops.len(), proof.len(), roots.len()));
+            }
+            let (mut pi, mut oi) = (0usize, 0usize);
+            while oi < ops.len() {
+                let op = ops[oi];
+                let mut flat = Vec::new();
+                let mut n = 0usize;
+                while oi < ops.len() && ops[oi] == op {
+                    flat.extend(pack_digest(&proof[pi]));
+                    pi += 1;
+                    oi += 1;
+                    n += 1;
+                }
+                for _ in n..3 {
+                    flat.extend(vec![CF::ZERO; capacity_ext]);
+                }
+                r.set_private_data(op, perm_private_data(cfg, flat)).map_err(|e| format!("{e:?}"))?;
+            }
+            r.run().map(|_| ()).map_err(|e| format!("{e:?}"))
+        });
+        Ok(match ran {
+            Ok(r) => CaseOut { native, circuit: r, circuit_panicked: false },
+            Err(p) => CaseOut { native, circuit: Err(format!("panic: {p}")), circuit_panicked: true },
+        })
+    }
+}
+
 fn run_case(shape: &MmcsShape, f: &MFault) -> Result<CaseOut, String> {
-    match observe(|| if shape.universe == "U-BB4" { bb4::run_case(shape, f) } else { kb4::run_case(shape, f) }) {
+    match observe(|| match shape.universe.as_str() {
+        "U-BB4" => bb4::run_case(shape, f),
+        "U-KB4-A4" => kb4a4::run_case(shape, f),
+        _ => kb4::run_case(shape, f),
+    }) {
         Ok(r) => r,
         Err(p) => Err(format!("panic: {p}")),
     }
 }
 fn fault_space(shape: &MmcsShape, index: usize) -> (usize, usize, usize, usize) {
-    if shape.universe == "U-BB4" { bb4::fault_space(shape, index) } else { kb4::fault_space(shape, index) }
+    match shape.universe.as_str() {
+        "U-BB4" => bb4::fault_space(shape, index),
+        "U-KB4-A4" => kb4a4::fault_space(shape, index),
+        _ => kb4::fault_space(shape, index),
+    }
 }
 
 pub fn draw_shape(rng: &mut Rng, universe: &str, tier: Tier) -> MmcsShape {
@@ -219,7 +396,7 @@ fn key_of(f: &MFault, o: &CaseOut) -> String {
 pub fn one_run(ctx: &Ctx, idx: u64, out: &mut RunOut) {
     let mut rng = Rng::new(ctx.seed, "C08", idx);
     foldhash::sim::set_seed(mix(ctx.seed, idx));
-    let uni = if idx % 2 == 0 { "U-KB4" } else { "U-BB4" };
+    let uni = ["U-KB4", "U-BB4", "U-KB4-A4"][(idx % 3) as usize];
     let shape = draw_shape(&mut rng, uni, ctx.tier);
     let max_h = shape.dims.iter().map(|d| d.0).max().unwrap();
     if out.samples.is_empty() {
@@ -246,7 +423,15 @@ pub fn one_run(ctx: &Ctx, idx: u64, out: &mut RunOut) {
         out.count("honest_openings");
         if !(o.native && o.circuit.is_ok()) {
             honest_ok = false;
-            out.violate(format!("honest:{}", key_of(&f, &o)), format!("honest opening at index {index}: native {} circuit {:?}", o.native, o.circuit), json!({"shape": shape, "fault": f}));
+            if std::env::var("VERIF_DUMP_SKIPPED").is_ok() {
+                eprintln!("HONESTFAIL idx={index} {} {:?}", serde_json::to_string(&shape).unwrap_or_default(), o.circuit);
+            }
+            // the arity-4 builder infers where the cap sits from the number of cap entries alone;
+            // a 2-wide bridge layer padded to 4 makes that ambiguous (two layers of width 4), and
+            // it then allocates fewer sibling slots than the native proof has digests
+            let structural = matches!(&o.circuit, Err(e) if e.contains("sibling slots for"));
+            let key = if o.native && structural { format!("honest:arity4_fewer_sibling_slots_than_native_proof:cap{}", shape.cap_height) } else { format!("honest:{}", key_of(&f, &o)) };
+            out.violate(key, format!("honest opening at index {index}: native {} circuit {:?}", o.native, o.circuit), json!({"shape": shape, "fault": f}));
             break;
         }
     }
@@ -348,12 +533,12 @@ pub fn main(ctx: &Ctx) -> i32 {
         runs,
         Spec {
             level: "fault_enumeration",
-            rule: "one run = one seeded batch of 1..5 matrices (heights 1..32/64: equal, mixed powers of two, strictly decreasing; widths from {1,2,3,5,7,8,9,15,16,17,24}; cap height 0..2) committed by the native MerkleTreeMmcs; honest opening at every index natively and in-circuit; then at 2/6 sampled indices every opened value, every sibling digest word, every index bit and every cap entry word is altered, one at a time; native verify_batch verdict == circuit run verdict. distinct = distinct (universe, #matrices, #distinct heights, cap height, fault kind).",
+            rule: "one run = one seeded batch of 1..5 matrices (heights 1..32/64: equal, mixed powers of two, strictly decreasing; widths from {1,2,3,5,7,8,9,15,16,17,24}; cap height 0..2) committed by the native MerkleTreeMmcs (binary trees over KoalaBear / BabyBear width-16 Poseidon2, and quaternary trees over KoalaBear width-32 Poseidon2 against verify_batch_circuit_arity4, one run in three); honest opening at every index natively and in-circuit; then at 2/6 sampled indices every opened value, every sibling digest word, every index bit and every cap entry word is altered, one at a time; native verify_batch verdict == circuit run verdict. distinct = distinct (universe, #matrices, #distinct heights, cap height, fault kind).",
             exhaustive: true,
             assumptions: vec!["exhaustive over single faults of the sampled openings; dimension vectors and indices sampled".into()],
             components_real: vec!["MerkleTreeMmcs commit/open_batch/verify_batch", "verify_batch_circuit", "add_mmcs_verify / Poseidon2 Merkle-mode executor", "CircuitRunner"],
             components_stub: vec![],
-            not_covered: vec!["arity-4 trees", "hiding/salted MMCS", "extension-field leaves (verify_batch_circuit_from_extension_opened; exercised through FRI commit-phase openings in C01/C07)", "non-power-of-two heights"],
+            not_covered: vec!["hiding/salted MMCS (exercised through the hiding universes of C01/C07)", "arity-4 with BabyBear / extension-field leaves", "extension-field leaves (verify_batch_circuit_from_extension_opened; exercised through FRI commit-phase openings in C01/C07)", "non-power-of-two heights"],
             extra: json!({}),
         },
     )
